@@ -840,6 +840,12 @@ func certainlyFails(ret *ssa.Return) bool {
 	if !isErrorType(last.Type()) {
 		return false
 	}
+	// returned on the branch where it is known to be non-nil: `if err := b.send(); err != nil { return err }`
+	for _, f := range core.FactsAt(ret.Block()) {
+		if l, op, r, isCmp := cmpNorm(f); isCmp && op == token.NEQ && core.IsNilConst(r) && (l == last || core.Resolve(l) == core.Resolve(last)) {
+			return true
+		}
+	}
 	call, ok := core.Resolve(last).(*ssa.Call)
 	if !ok {
 		return false
